@@ -974,7 +974,7 @@ def drv_concurrent_sampling(tier, seed):
   old = sys.getswitchinterval()
   sys.setswitchinterval(1e-6)
   t0 = time.time()
-  budget = 36.0 if tier == 'quick' else 560.0
+  budget = 55.0 if tier == 'quick' else 560.0
   try:
     for si, (cfg, reps) in enumerate(_scenarios(tier, seed)):
       for rep in range(reps):
@@ -1277,6 +1277,10 @@ def run_lockstep(spec, tag):
       f'(round, group, finished trial, trial handed out next): {bad_new[:4]}')
   if foreign or bad_share or bad_disjoint or bad_keep or bad_new:
     return out      # (worker errors and wrong counts are consequences then)
+  put('finish.too-early-done-leaves-the-trial-pending/lock-step/co-workers', not shared['notes'],
+      '; '.join(n[1] for n in shared['notes'][:2]))
+  if shared['notes']:
+    return out
   put('worker.no-unexpected-exception/lock-step', not shared['errors'],
       f'worker errors: {shared["errors"][:3]}')
   if shared['errors']:
@@ -1358,39 +1362,42 @@ def _seq_reward(tid, i):
 
 
 def _seq_model(ops, tid):
-  """What the statement allows: (outcome, class label, per-op 'must take effect')."""
-  pending, ms, outcome = True, [], None
-  flags, eff = set(), []
+  """What the statement allows.
+
+  Returns (outcome, finisher, steps); steps[i] = (operation class, must take
+  effect, status after it, infeasible after it).
+  """
+  pending, ms, outcome, finisher = True, [], None, None
+  infeasible = False
+  steps = []
   for i, op in enumerate(ops):
     if not pending:
-      flags.add('op-after-completion')
-      eff.append(False)
-      continue
-    if op == 'add':
+      cls, eff = 'operation-after-completion', False
+    elif op == 'add':
       ms.append(_seq_reward(tid, i))
-      eff.append(True)
+      cls, eff = 'add_measurement', True
     elif op == 'bad-add':
-      flags.add('invalid-measurement-while-pending')   # refused: changes nothing
-      eff.append(False)
+      cls, eff = 'invalid-add_measurement', False      # refused: changes nothing
     elif op == 'done':
       if ms:
-        pending, outcome = False, ('ok', ms[-1])
-        eff.append(True)
+        pending, outcome, finisher = False, ('ok', ms[-1]), 'done'
+        cls, eff = 'done', True
       else:
         # nothing to report: the trial cannot be completed by this call.
-        flags.add('done-without-measurement-while-pending')
-        eff.append(False)
+        cls, eff = 'done-without-measurement', False
     elif op == 'call':
       ms.append(_seq_reward(tid, i))
-      pending, outcome = False, ('ok', ms[-1])
-      eff.append(True)
+      pending, outcome, finisher = False, ('ok', ms[-1]), 'call'
+      cls, eff = 'call', True
     elif op in ('skip', 'skip-exc'):
-      pending, outcome = False, ('skip',)
-      eff.append(True)
+      pending, outcome, infeasible = False, ('skip',), True
+      finisher = 'skip' if op == 'skip' else 'skip_on_exceptions'
+      cls, eff = finisher, True
     else:
       raise ValueError(op)
+    steps.append((cls, eff, 'PENDING' if pending else 'COMPLETED', infeasible))
   assert not pending
-  return outcome, ('+'.join(sorted(flags)) or 'plain'), eff
+  return outcome, finisher, steps
 
 
 def _seq_exec(fb, op, tid, i):
@@ -1462,21 +1469,34 @@ def run_sequences(seqs, mode, tag, group=None):
   def note(cid, key, ok, msg):
     found.append((cid, key, bool(ok), msg))
 
-  def verify(t_index, ops, fb, raised):
+  def verify(t_index, ops, fb, raised, states):
     tid = t_index + 1
-    outcome, label, eff = _seq_model(ops, tid)
+    outcome, finisher, steps = _seq_model(ops, tid)
     key = (mode, ops)
-    pre = f'finish-sequence/{label}'
-    refused = [(i, ops[i], f'{type(e).__name__}: {str(e)[:80]}')
-               for i, e in enumerate(raised) if e is not None and eff[i]]
-    note(f'{pre}/valid-operation-accepted', key, not refused,
-         f'{ops}: operations on the pending trial that must take effect raised: {refused[:3]}')
+    # the first operation after which the trial is not in the state the
+    # statement allows names the case; what follows it is a consequence.
+    for i, (cls, eff, status, infeasible) in enumerate(steps):
+      if eff and raised[i] is not None:
+        e = raised[i]
+        note(f'finish-sequence/operation-accepted/{cls}', key, False,
+             f'{ops} on trial {tid}: operation {i} ({ops[i]}) must take effect on the pending trial '
+             f'but raised {type(e).__name__}: {str(e)[:80]}')
+        return
+      if states[i] != (status, infeasible):
+        note(f'finish-sequence/trial-state-after/{cls}', key, False,
+             f'{ops} on trial {tid}: after operation {i} ({ops[i]}) the trial is (status, infeasible) '
+             f'{states[i]}, the statement allows only {(status, infeasible)} (exceptions so far: '
+             f'{[type(e).__name__ if e else None for e in raised[:i + 1]]})')
+        return
+    for cls in sorted({st[0] for st in steps}):
+      note(f'finish-sequence/trial-state-after/{cls}', key, True, '')
+    pre = f'finish-sequence/finished-by={finisher}'
     trial = fb.get_trial()
     fm = trial.final_measurement
     want_inf = outcome[0] == 'skip'
     ok_state = (fb.id == tid and trial.status == 'COMPLETED' and trial.infeasible == want_inf
                 and fm is not None and fm.reward == (0.0 if want_inf else outcome[1]))
-    note(f'{pre}/trial-completed-with-the-outcome-of-the-first-valid-finish', key, ok_state,
+    note(f'{pre}/final-measurement', key, ok_state,
          f'{ops} on trial {tid}: status={trial.status}, infeasible={trial.infeasible}, final reward '
          f'{fm and fm.reward}; expected COMPLETED, '
          + ('infeasible' if want_inf else f'reward {outcome[1]}')
@@ -1532,19 +1552,23 @@ def run_sequences(seqs, mode, tag, group=None):
         if nw > 1:
           barrier.wait()
         raised = [None] * len(ops)
+        states = [None] * len(ops)
         for i, op in enumerate(ops):
           if (i + phase) % nw == k:
             raised[i] = _seq_exec(fb, op, t_index + 1, i)
+            tr = fb.get_trial()
+            states[i] = (tr.status, bool(tr.infeasible))
           if nw > 1:
             barrier.wait()
         if nw > 1:
-          shared_raised[(k, t_index)] = raised
+          shared_raised[(k, t_index)] = (raised, states)
           barrier.wait()
         if k == 0:
           if nw > 1:
-            o = shared_raised[(1, t_index)]
+            o, os_ = shared_raised[(1, t_index)]
             raised = [a if a is not None else b for a, b in zip(raised, o)]
-          verify(t_index, ops, fb, raised)
+            states = [a if a is not None else b for a, b in zip(states, os_)]
+          verify(t_index, ops, fb, raised, states)
         if nw > 1:
           barrier.wait()
       try:
